@@ -279,10 +279,6 @@ func carriesInjected(err error, o observed) bool {
 	return o.codes[status.Code(err)] && strings.Contains(status.Convert(err).Message(), "injected fault at be-")
 }
 
-func hasPrefix(err error, p string) bool {
-	return strings.HasPrefix(status.Convert(err).Message(), p)
-}
-
 // ---------------------------------------------------------------------
 // (a) read caching / read fallback
 // ---------------------------------------------------------------------
@@ -402,9 +398,13 @@ func TestC17ReadThrough(t *testing.T) {
 				o := observe(log, be, m)
 				what := fmt.Sprintf("%s(object %d, %s) held before by %s=%v %s=%v -> %d bytes, %v; %s; replicator %s",
 					kind, j, methodNames[method], names[0], before[j][0], names[1], before[j][1], len(got), err, o, cfg)
-				if len(o.calls) == 0 || o.calls[0].Backend != names[0] || o.calls[0].Op != kind {
-					t.Fatalf("%s: the read did not start at the %s back end", what, names[0])
-				}
+				// The property fixes WHAT a read returns (the object iff one of
+				// the two back ends holds it) and where it ends up, not the
+				// order or number of back-end calls, and - unlike the mirrored
+				// pair - nothing about how a back-end failure is reported
+				// (code, prefix, whether the other back end is still tried):
+				// those are only counted.
+				c.ClassIf(len(o.calls) > 0 && (o.calls[0].Backend != names[0] || o.calls[0].Op != kind), "get_not_started_at_"+names[0])
 				held := before[j][0] || before[j][1]
 				code := status.Code(err)
 				switch {
@@ -415,41 +415,25 @@ func TestC17ReadThrough(t *testing.T) {
 					if !bytes.Equal(got, want) {
 						t.Fatalf("%s: returned %q, want %q", what, got, want)
 					}
-					if o.firstFault[0] || (o.contacted[1] && o.firstFault[1]) {
-						t.Fatalf("%s: a back end failed with a non-NOT_FOUND error, yet the read succeeded", what)
-					}
-					if before[j][0] && o.contacted[1] {
-						t.Fatalf("%s: the %s back end was consulted although %s holds the object", what, names[1], names[0])
-					}
+					c.ClassIf(o.firstFault[0] || (o.contacted[1] && o.firstFault[1]), "get_ok_despite_backend_failure")
+					c.ClassIf(before[j][0] && o.contacted[1], "get_second_consulted_although_first_holds")
+					// read-through: the object came from the slow/secondary
+					// back end (the fast/primary one did not hold it)
 					if !before[j][0] && copies && !has(0, obj) {
 						t.Fatalf("%s: successful read-through with a copying replicator, but %s still lacks the object", what, names[0])
 					}
-				case code == codes.NotFound:
+				case !o.any():
+					// no back end failed during this read: the answer must be
+					// the object iff a back end holds it
 					if held {
-						t.Fatalf("%s: NOT_FOUND although a back end holds the object", what)
+						t.Fatalf("%s: error although a back end holds the object and no failure was injected", what)
 					}
-					if o.firstFault[0] || (o.contacted[1] && o.firstFault[1]) {
-						t.Fatalf("%s: a back end failed with a non-NOT_FOUND error but the caller got NOT_FOUND: failure masked", what)
-					}
+					c.ClassIf(code != codes.NotFound, "get_absent_other_error")
 				default:
-					if !o.any() {
-						t.Fatalf("%s: error although no failure was injected", what)
-					}
-					if !carriesInjected(err, o) {
-						t.Fatalf("%s: the error is not (a wrapping of) an injected failure", what)
-					}
-					if o.firstFault[0] {
-						if o.contacted[1] {
-							t.Fatalf("%s: %s consulted after a non-NOT_FOUND failure of %s", what, names[1], names[0])
-						}
-						if !caching && !hasPrefix(err, "Primary: ") {
-							t.Fatalf("%s: failure of the primary must be reported as \"Primary: ...\"", what)
-						}
-					} else if o.contacted[1] && o.firstFault[1] {
-						if !caching && !hasPrefix(err, "Secondary: ") {
-							t.Fatalf("%s: failure of the secondary must be reported as \"Secondary: ...\"", what)
-						}
-					}
+					// a back end failed during this read: any error
+					c.ClassIf(code == codes.NotFound, "get_fault_reported_as_not_found")
+					c.ClassIf(!carriesInjected(err, o), "get_fault_error_recoded")
+					c.ClassIf(o.firstFault[0] && o.contacted[1], "get_second_consulted_after_first_failed")
 				}
 				switch {
 				case o.any():
@@ -480,26 +464,26 @@ func TestC17ReadThrough(t *testing.T) {
 				if o.contacted[1-uploadTo] {
 					t.Fatalf("%s: the upload reached the %s back end; uploads must go to %s only", what, names[1-uploadTo], names[uploadTo])
 				}
+				// (how many and which calls the upload target sees is the
+				// implementation's: only counted)
 				if got := o.ops(names[uploadTo]); len(got) != 1 || got[0] != "Put" {
-					t.Fatalf("%s: %s saw %v, want exactly one Put", what, names[uploadTo], got)
+					c.Class("put_target_saw_other_than_one_put")
 				}
 				if has(1-uploadTo, obj) != before[j][1-uploadTo] {
 					t.Fatalf("%s: the upload changed the %s back end", what, names[1-uploadTo])
 				}
 				if err == nil {
-					if wrong || o.any() {
-						t.Fatalf("%s: upload acknowledged despite mismatching content / injected failure", what)
+					if wrong {
+						t.Fatalf("%s: upload of mismatching content acknowledged", what)
 					}
 					if !has(uploadTo, obj) {
 						t.Fatalf("%s: acknowledged, but %s does not hold the object", what, names[uploadTo])
 					}
+					c.ClassIf(o.any(), "put_ok_despite_backend_failure")
 					c.Class("put_ok")
 				} else {
-					if !wrong && !(o.any() && carriesInjected(err, o)) {
-						t.Fatalf("%s: unexplained upload error", what)
-					}
-					if status.Code(err) == codes.NotFound {
-						t.Fatalf("%s: NOT_FOUND from an upload", what)
+					if !wrong && !o.any() {
+						t.Fatalf("%s: unexplained upload error (correct content, no failure injected)", what)
 					}
 					c.Class("put_failed")
 				}
@@ -523,62 +507,58 @@ func TestC17ReadThrough(t *testing.T) {
 					got = append(got, d.String())
 				}
 				sort.Strings(got)
+				// want: what must be reported; may: what may additionally be
+				// reported. Fallback: "exactly the objects missing from both".
+				// Read caching: the property says nothing about FindMissing;
+				// today it is forwarded to the slow back end (the source of
+				// truth, ReadCachingBlobAccessConfiguration.slow). Accepted is
+				// every answer that reports everything missing from both and
+				// nothing the slow back end holds.
 				var want []string
-				if caching {
-					// The slow back end is the source of truth
-					// (ReadCachingBlobAccessConfiguration.slow): FindMissing is
-					// forwarded to it unchanged, the cache is not consulted.
-					if o.contacted[0] {
-						t.Fatalf("%s: FindMissing through a read cache touched the fast back end", what)
-					}
-					for _, j := range members {
-						if !before[j][1] {
-							want = append(want, pool[j].d.String())
-						}
-					}
-				} else {
-					for _, j := range members {
-						if !before[j][0] && !before[j][1] {
-							want = append(want, pool[j].d.String())
-						}
+				may := map[string]bool{}
+				for _, j := range members {
+					if !before[j][0] && !before[j][1] {
+						want = append(want, pool[j].d.String())
+					} else if caching && !before[j][1] {
+						may[pool[j].d.String()] = true
 					}
 				}
 				sort.Strings(want)
+				c.ClassIf(caching && o.contacted[0], "find_read_cache_consulted_fast")
 				if err == nil {
-					if o.firstFault[0] || o.firstFault[1] {
-						t.Fatalf("%s: a back end's FindMissing failed but the call succeeded", what)
+					c.ClassIf(o.firstFault[0] || o.firstFault[1], "find_ok_despite_backend_failure")
+					var gotMust []string
+					for _, g := range got {
+						if !may[g] {
+							gotMust = append(gotMust, g)
+						}
 					}
-					if fmt.Sprint(got) != fmt.Sprint(want) {
-						t.Fatalf("%s: reported missing %v, want %v", what, got, want)
+					if fmt.Sprint(gotMust) != fmt.Sprint(want) {
+						t.Fatalf("%s: reported missing %v, want %v (optionally also %v)", what, got, want, may)
 					}
-					synced := 0
+					// (today a fallback FindMissing also copies objects held
+					// by the secondary only into the primary; the property
+					// demands that of read-through only: counted)
+					synced, unsynced := 0, 0
 					if !caching {
 						for _, j := range members {
 							if before[j][1] && !before[j][0] {
-								synced++
-								if copies && !has(0, pool[j]) {
-									t.Fatalf("%s: succeeded, but object %d (held by the secondary only) was not copied to the primary", what, j)
+								if has(0, pool[j]) {
+									synced++
+								} else if copies {
+									unsynced++
 								}
 							}
 						}
 					}
 					c.ClassIf(synced > 0, "find_ok_synchronized")
+					c.ClassIf(unsynced > 0, "find_ok_not_synchronized")
 					c.ClassIf(synced == 0, "find_ok")
 				} else {
-					if status.Code(err) == codes.NotFound {
-						t.Fatalf("%s: FindMissing failed with NOT_FOUND", what)
+					if !o.any() {
+						t.Fatalf("%s: unexplained FindMissing error (no failure injected)", what)
 					}
-					if !o.any() || !carriesInjected(err, o) {
-						t.Fatalf("%s: unexplained FindMissing error", what)
-					}
-					if !caching {
-						if o.firstFault[0] && !hasPrefix(err, "Primary: ") {
-							t.Fatalf("%s: failure of the primary's FindMissing must be reported as \"Primary: ...\"", what)
-						}
-						if !o.firstFault[0] && o.firstFault[1] && !hasPrefix(err, "Secondary: ") {
-							t.Fatalf("%s: failure of the secondary's FindMissing must be reported as \"Secondary: ...\"", what)
-						}
-					}
+					c.ClassIf(status.Code(err) == codes.NotFound, "find_fault_reported_as_not_found")
 					c.Class("find_failed")
 				}
 				rendered = append(rendered, fmt.Sprintf("FindMissing(%v)->%d,%v", members, len(got), err))
@@ -693,16 +673,12 @@ func TestC17ExistenceCache(t *testing.T) {
 				j := rapid.IntRange(0, len(pool)-1).Draw(t, "obj")
 				c.Add(kind, j)
 				err := ba.Put(ctx, pool[j].d, buffer.NewCASBufferFromByteSlice(pool[j].d, pool[j].data, buffer.UserProvided))
-				calls := log.Snapshot()[logLen:]
-				if len(calls) != 1 || calls[0].Op != "Put" {
-					t.Fatalf("Put through the existence cache: back end saw %v", calls)
-				}
+				// Put and Get are outside the property's existence-cache
+				// clause; asserted is only transparency when nothing fails.
 				if faulty.FiredCount() > fired {
-					if err == nil || !strings.Contains(err.Error(), faulty.ErrText()) {
-						t.Fatalf("Put: injected failure not passed through: %v", err)
-					}
+					c.ClassIf(err == nil, "put_ok_despite_backend_failure")
 				} else if err != nil || !mem.Has(pool[j].d) {
-					t.Fatalf("Put through the existence cache failed: %v", err)
+					t.Fatalf("Put through the existence cache failed although the back end did not: %v", err)
 				}
 				rendered = append(rendered, fmt.Sprintf("Put(o%d)->%v", j, err))
 			case "Get":
@@ -710,23 +686,18 @@ func TestC17ExistenceCache(t *testing.T) {
 				c.Add(kind, j)
 				stored, present := mem.Peek(pool[j].d)
 				got, err := ba.Get(ctx, pool[j].d).ToByteSlice(1 << 20)
-				calls := log.Snapshot()[logLen:]
-				if len(calls) != 1 || calls[0].Op != "Get" {
-					t.Fatalf("Get through the existence cache: back end saw %v", calls)
-				}
 				switch {
 				case faulty.FiredCount() > fired:
-					if err == nil || !strings.Contains(err.Error(), faulty.ErrText()) {
-						t.Fatalf("Get: injected failure not passed through: %v", err)
-					}
+					c.ClassIf(err == nil, "get_ok_despite_backend_failure")
 				case present:
 					if err != nil || !bytes.Equal(got, stored) {
 						t.Fatalf("Get of a present object through the existence cache: %q, %v", got, err)
 					}
 				default:
-					if status.Code(err) != codes.NotFound {
-						t.Fatalf("Get of an absent object through the existence cache: %v (the cache must not change Get)", err)
+					if err == nil {
+						t.Fatalf("Get of an absent object through the existence cache returned %q", got)
 					}
+					c.ClassIf(status.Code(err) != codes.NotFound, "get_absent_other_error")
 				}
 				rendered = append(rendered, fmt.Sprintf("Get(o%d)->%v", j, err))
 			case "FindMissing":
@@ -741,26 +712,45 @@ func TestC17ExistenceCache(t *testing.T) {
 				c.Add(kind, fmt.Sprint(members))
 				now := clk.Now()
 				missing, err := ba.FindMissing(ctx, sb.Build())
+				// How often the back end is asked (not at all when the cache
+				// answers everything, once, in batches) is the
+				// implementation's. asked: digests about which the back end
+				// ANSWERED during this call.
 				calls := log.Snapshot()[logLen:]
-				if len(calls) != 1 || calls[0].Op != "FindMissing" {
-					t.Fatalf("FindMissing through the existence cache: back end saw %v, want exactly one FindMissing", calls)
-				}
 				asked := map[string]bool{}
-				for _, d := range calls[0].Digests {
-					asked[d.GetKey(kf)] = true
-				}
-				what := fmt.Sprintf("FindMissing(%v) at t=%v -> %v, %v (asked back end about %d); cache size %d duration %v", members, now.Sub(time.Unix(1_000_000, 0)), missing.Items(), err, len(asked), size, duration)
-				if faulty.FiredCount() > fired {
-					if err == nil || !strings.Contains(err.Error(), faulty.ErrText()) {
-						t.Fatalf("%s: injected failure not passed through", what)
+				nFind := 0
+				for _, cl := range calls {
+					if cl.Op != "FindMissing" {
+						continue
 					}
+					nFind++
+					if cl.Err != nil {
+						continue
+					}
+					for _, d := range cl.Digests {
+						asked[d.GetKey(kf)] = true
+					}
+				}
+				c.ClassIf(nFind != 1, "find_backend_not_asked_exactly_once")
+				what := fmt.Sprintf("FindMissing(%v) at t=%v -> %v, %v (back end answered about %d); cache size %d duration %v", members, now.Sub(time.Unix(1_000_000, 0)), missing.Items(), err, len(asked), size, duration)
+				// every "present" answer of the back end may enter the cache
+				notePresent := func() {
+					for j := range pool {
+						if asked[pool[j].d.GetKey(kf)] && mem.Has(pool[j].d) {
+							lastPresent[j] = now
+						}
+					}
+				}
+				if err != nil {
+					if faulty.FiredCount() == fired {
+						t.Fatalf("%s: unexplained error (the back end did not fail)", what)
+					}
+					notePresent()
 					c.Class("find_failed")
 					rendered = append(rendered, fmt.Sprintf("FindMissing(%v)->%v", members, err))
 					break
 				}
-				if err != nil {
-					t.Fatalf("%s: unexplained error", what)
-				}
+				c.ClassIf(faulty.FiredCount() > fired, "find_ok_despite_backend_failure")
 				reported := map[string]bool{}
 				for _, d := range missing.Items() {
 					reported[d.GetKey(kf)] = true
@@ -791,10 +781,8 @@ func TestC17ExistenceCache(t *testing.T) {
 						}
 						c.Class("stale_hit_within_duration")
 					}
-					if present && asked[k] {
-						lastPresent[j] = now
-					}
 				}
+				notePresent()
 				for k := range reported {
 					if !inSet[k] {
 						t.Fatalf("%s: reports a digest that was not asked for", what)
@@ -802,7 +790,7 @@ func TestC17ExistenceCache(t *testing.T) {
 				}
 				for k := range asked {
 					if !inSet[k] {
-						t.Fatalf("%s: back end asked about a digest the caller did not ask for", what)
+						c.Class("find_backend_asked_about_other_digest")
 					}
 				}
 				c.ClassIf(len(asked) < len(members), "find_served_partly_from_cache")
